@@ -1,7 +1,8 @@
-//! Whole-action harnesses (thorough tier): `IncreasePosition::execute` / `DecreasePosition::execute`
-//! end to end on a `VMarket` whose *pools, position and order inputs* are symbolic while the fee /
-//! impact / funding parameters are concrete (zero) — see DESIGN §4: whole actions on an all-symbolic
-//! market do not finish in symbolic execution.
+//! Whole-action harnesses: `IncreasePosition::execute` (thorough tier; verified in ~42 min / 13 GB
+//! per side) and `DecreasePosition::execute` (tier=experimental: CBMC runs out of 40 GB during
+//! symbolic execution) end to end on a `VMarket` whose *pools, position and order inputs* are symbolic
+//! while the side flags and the fee / impact / funding / threshold parameters are concrete — see
+//! DESIGN §4: whole actions on an all-symbolic market do not finish in symbolic execution.
 //!
 //! Obligations asserted on `Ok` (the model mutates in place, nothing is claimed on `Err`):
 //!   C07  open interest, open interest in tokens and collateral sum of the position's slot move by
@@ -224,15 +225,26 @@ where
     core::mem::forget(r);
 }
 
-//@ prop=C07 tier=experimental kind=hold
+//@ prop=C07 tier=thorough kind=hold
 //@ enc=IncreasePosition::execute (whole action: initialize_position_if_empty, get_execution_params, process_collateral, update_total_borrowing, update_open_interest, validate_reserve, validate_open_interest_reserve, will_collateral_be_sufficient, validate)
-//@ bound=T=u8, DECIMALS=1: long position with long-token collateral; every pool value, position, deposit, size delta, flat index/collateral price; parameters concrete: no price impact, no fees, borrowing settled, thresholds zero, reserves/caps never binding
-//@ stubs=<u8 as SpecToString>::spec_to_string -> empty string (text of InsufficientReserve errors); assumed pre-state invariants: the position's pool slots contain the position, sizes both zero or both positive
-//@ timeout=3600 mem=30
+//@ bound=T=u8, DECIMALS=1: long position with long-token collateral; every open-interest / open-interest-in-tokens / collateral-sum / liquidity / claimable-fee / impact / borrowing-factor / total-borrowing pool value, every position (empty or open), deposit, size delta, flat index and collateral price; parameters concrete: no price impact, no fees, borrowing settled, thresholds zero, reserves/caps never binding
+//@ stubs=<u8 as SpecToString>::spec_to_string -> empty string (text of InsufficientReserve errors); hook: IncreasePosition::verif_with_position; assumed pre-state invariants: the position's pool slots contain the position, sizes both zero or both positive
+//@ timeout=5400 mem=30
 #[kani::proof]
 #[kani::stub(<u8 as alloc::string::SpecToString>::spec_to_string, empty_string_u8)]
-fn c07_increase_whole_minimal_u8() {
+fn c07_increase_whole_minimal_long_u8() {
     increase_whole::<u8, 1>(MINIMAL, true, true);
+}
+
+//@ prop=C07 tier=thorough kind=hold
+//@ enc=IncreasePosition::execute (whole action: initialize_position_if_empty, get_execution_params, process_collateral, update_total_borrowing, update_open_interest, validate_reserve, validate_open_interest_reserve, will_collateral_be_sufficient, validate)
+//@ bound=T=u8, DECIMALS=1: short position with short-token collateral; every open-interest / open-interest-in-tokens / collateral-sum / liquidity / claimable-fee / impact / borrowing-factor / total-borrowing pool value, every position (empty or open), deposit, size delta, flat index and collateral price; parameters concrete: no price impact, no fees, borrowing settled, thresholds zero, reserves/caps never binding
+//@ stubs=<u8 as SpecToString>::spec_to_string -> empty string (text of InsufficientReserve errors); hook: IncreasePosition::verif_with_position; assumed pre-state invariants: the position's pool slots contain the position, sizes both zero or both positive
+//@ timeout=5400 mem=30
+#[kani::proof]
+#[kani::stub(<u8 as alloc::string::SpecToString>::spec_to_string, empty_string_u8)]
+fn c07_increase_whole_minimal_short_u8() {
+    increase_whole::<u8, 1>(MINIMAL, false, false);
 }
 
 // ------------------------------------------------------------------------------------------------
@@ -318,7 +330,7 @@ where
 //@ prop=C07 tier=experimental kind=hold
 //@ enc=DecreasePosition::execute (whole action: check_partial_close, check_close, check_liquidation, process_collateral with the CollateralProcessor, update_total_borrowing, update_open_interest, validate)
 //@ bound=T=u8, DECIMALS=1: long position with long-token collateral, ordinary (non-liquidation) order; every pool value, position, size delta (capped to the position size), flat index/collateral price; no insolvent close, no separate collateral withdrawal; parameters concrete: no price impact, no fees, borrowing settled, thresholds zero
-//@ stubs=none; assumed pre-state invariants: the position's pool slots contain the position, sizes both positive
+//@ stubs=none; does NOT finish: CBMC runs out of memory (40 GB) during symbolic execution, also with the swap type forced to the constant NoSwap
 //@ timeout=3600 mem=30
 #[kani::proof]
 #[kani::unwind(4)]
